@@ -26,7 +26,7 @@ ASSUMPTIONS = [
     "eventlet is not installed; ssh/vagrant transports cannot be run (no server)",
 ]
 MINIMUM = {"programs": 150, "configs": 8, "bulk_bytes": 5000000, "control_checks": 6}
-SHARD_TIMEOUT = {"quick": 240, "thorough": 3000}
+SHARD_TIMEOUT = {"quick": 150, "thorough": 3000}
 
 TRANSPORTS = ["popen", "python", "socket", "via"]
 MODELS = ["thread", "main_thread_only", "gevent"]
